@@ -63,9 +63,12 @@ Section ChunkLoop.
   Variable s : selection.
   Hypothesis Hs : g_is_slice_state s = false.
   Variables fin pos : bool.
+  Variable unb : garr A -> garr A.
+  Variable st : Z.
+  Hypothesis Hunb : unb_sound A res R isfin ispos unb st.
 
-  Local Notation GSTEP := (gen_step A res R nan zero isfin ispos shape a).
-  Local Notation GREC := (gen_rec A res R nan zero isfin ispos shape a).
+  Local Notation GSTEP := (gen_step A res R nan zero isfin ispos shape a unb).
+  Local Notation GREC := (gen_rec A res R nan zero isfin ispos shape a unb).
   Local Notation FILT := (filt_of A isfin ispos fin pos).
   Local Notation RED := (red_axis (length shape) ai).
 
@@ -79,7 +82,7 @@ Section ChunkLoop.
   (* one recursive call self.compute_statistic(.., view=chunk_view) *)
   Lemma gen_one_chunk : forall rf fuel ca cb,
     0 <= ca -> ca < cb -> cb <= nth ai shape 0 ->
-    exists r, GREC (S rf) fuel tt tt s (AxTuple L) fin pos tt (view_of_chunk (chunk_of shape ai ca cb)) None 40000000 = Ok r /\
+    exists r, GREC (S rf) fuel st tt s (AxTuple L) fin pos tt (view_of_chunk (chunk_of shape ai ca cb)) None 40000000 = Ok r /\
               forall k, ca <= k < cb -> snd r [k - ca] = gwhole k.
   Proof.
     intros rf fuel ca cb Hca Hcab Hcb.
@@ -88,7 +91,7 @@ Section ChunkLoop.
     { unfold view_of_chunk, pv, sl. rewrite map_map. reflexivity. }
     assert (Hsc : shortcut s (AxTuple L) (pv (Some (map VSlice sl))) = false)
       by (unfold shortcut; rewrite Hs; reflexivity).
-    destruct (gen_step_definition A res R nan zero R_nil isfin ispos shape a Hsh (GREC rf fuel) fuel s (AxTuple L) fin pos
+    destruct (gen_step_definition A res R nan zero R_nil isfin ispos shape a Hsh unb st Hunb (GREC rf fuel) fuel s (AxTuple L) fin pos
                 (Some (map VSlice sl)) 40000000 eq_refl Hsc) as [r [Hr [_ H2]]].
     exists r. split.
     - rewrite Hview. exact Hr.
@@ -106,7 +109,7 @@ Section ChunkLoop.
         unfold pos', sl. rewrite vshape_chunk_nth by (assumption || lia). constructor; [lia|constructor].
   Qed.
 
-  Local Notation LOOP3 rec := (compute_statistic_loop3 unit unit selection unit (gres res) (g_setitem res) rec tt tt s (AxTuple L) fin pos tt (Z.of_nat ai)).
+  Local Notation LOOP3 rec := (compute_statistic_loop3 Z unit selection unit (gres res) (g_setitem res) rec st tt s (AxTuple L) fin pos tt (Z.of_nat ai)).
 
   Lemma setitem_at : forall sh0 (f : idx -> res) ca cb (r : gres res) k,
     snd (g_setitem res (sh0, f) [slice_of_pair (ca, cb)] r) [k] = if (ca <=? k) && (k <? cb) then snd r [k - ca] else f [k].
@@ -114,11 +117,11 @@ Section ChunkLoop.
     intros. unfold g_setitem, slice_of_pair, sl_lo, sl_hi. simpl. destruct (ca <=? k), (k <? cb); reflexivity.
   Qed.
 
-  Lemma loop3_step : forall (rec : g_rec_t res) (st : gres res) ch,
-    LOOP3 rec st ch =
-    match rec tt tt s (AxTuple L) fin pos tt (view_of_chunk ch) None 40000000 with
+  Lemma loop3_step : forall (rec : g_rec_t res) (acc : gres res) ch,
+    LOOP3 rec acc ch =
+    match rec st tt s (AxTuple L) fin pos tt (view_of_chunk ch) None 40000000 with
     | Err e => Err e
-    | Ok values => Ok (g_setitem res st [slice_of_pair (pnth ch (Z.of_nat ai))] values)
+    | Ok values => Ok (g_setitem res acc [slice_of_pair (pnth ch (Z.of_nat ai))] values)
     end.
   Proof. reflexivity. Qed.
 
@@ -160,7 +163,7 @@ Section ChunkLoop.
     zprod shape > ncm ->
     (C20.Model.fuel_for shape <= fuel)%nat ->
     exists r,
-      gen_compute_statistic A res R nan zero isfin ispos shape a (S (S rf)) fuel s (AxTuple L) fin pos PVNone ncm = Ok r /\
+      gen_compute_statistic A res R nan zero isfin ispos shape a unb (S (S rf)) fuel st s (AxTuple L) fin pos PVNone ncm = Ok r /\
       fst r = [nth ai shape 0] /\
       forall k, 0 <= k < nth ai shape 0 -> snd r [k] = gwhole k.
   Proof.
